@@ -583,4 +583,59 @@ example : (PyIRRd.runCtor { Gen.PyIRRd.prog.init with sets := Gen.PyIRRd.prog.in
 example : (PyIRRd.runCtor { Gen.PyIRRd.prog.init with sets := [(.md .kernelExtensions, .display .emptyDict)] }
     [true, true] {}).toOption = none := by decide
 
+/-! ### translation tie of the construct DECLARATIONS (`kd_header_v3`, `kd_v3_threadmap`, `kd_v3_additional_data`)
+
+The reader tie above keeps `Aligned(8, kd_header_v3).parse_stream(reader)`, `kd_v3_threadmap.parse_stream(reader)` and
+`kd_v3_additional_data.parse_stream(reader)` as primitives.  What these names ARE — the module-level construct
+expressions — is translated too (`tools/gen_pyir_cn.py` → `Gen/PyIRCn`) and run by `PyIRCn.Con.parse` over the same
+reader monad and the same combinators of `Model/Construct` (see `C02.kd_threadmap_decl_eq_model`,
+`C02.kd_header_v2_decl_eq_model` for the version-2 half). -/
+
+/-- **The translated declarations are the ones the lemmas were proved for** (`Spec/PyIRCnExpected`, quoting the Python),
+    `BplistAdapter._decode` returns `plistlib.loads(obj)`, and the translator met nothing outside the subset. -/
+theorem decl_source_is_expected_ir : Gen.PyIRCn.module = PyIRCn.Expected.module ∧ Gen.PyIRCn.notes = [] := by decide
+
+/-- **`kd_header_v3`, interpreted, is `headerV3Inner`** — for EVERY reader state and whatever `plistlib.loads` does
+    (`env.plist`): the declaration bound to `kd_header_v3`, run by `Con.parse` and read as (the twelve integer fields in
+    order, the cpu_info payload), gives the same value or the same exception (StreamError of a short field, the
+    model's `ValueError` of a payload that does not load) and the same reader (position, read counters).  The
+    DECLARATION carries no alignment: `Aligned(8, …)` is applied at the call site in `parse_v3` (translated by the
+    reader tie, `Prim.headerV3`); see `header_v3_call_site`. -/
+theorem kd_header_v3_decl_eq_model (env : PyIRCn.Env) (ctx : List (String × PyIRCn.CVal)) (r : Reader) :
+    PyIRCn.project PyIRCn.CVal.toHeaderV3 ((Gen.PyIRCn.module.decl "kd_header_v3").parse env ctx) r =
+      headerV3Inner env.plist r := by
+  rw [decl_source_is_expected_ir.1, PyIRCn.decl_kd_header_v3, PyIRCn.project_kd_header_v3]
+
+/-- the call site `Aligned(8, kd_header_v3).parse_stream(reader)`: the model's `headerV3` is `aligned 8` around the
+    interpreted declaration. -/
+theorem header_v3_call_site (env : PyIRCn.Env) (ctx : List (String × PyIRCn.CVal)) :
+    headerV3 env.plist =
+      aligned 8 (PyIRCn.project PyIRCn.CVal.toHeaderV3 ((Gen.PyIRCn.module.decl "kd_header_v3").parse env ctx)) := by
+  have h : PyIRCn.project PyIRCn.CVal.toHeaderV3 ((Gen.PyIRCn.module.decl "kd_header_v3").parse env ctx) =
+      headerV3Inner env.plist := funext (kd_header_v3_decl_eq_model env ctx)
+  rw [h]; rfl
+
+/-- twelve fields 1 … 12, a 3-byte payload, then one more byte -/
+def exDeclHeaderV3 : Bytes :=
+  [1, 0, 0, 0] ++ [2, 0, 0, 0] ++ [3, 0, 0, 0, 0, 0, 0, 0] ++ [4, 0, 0, 0] ++ [5, 0, 0, 0] ++ [6, 0, 0, 0, 0, 0, 0, 0] ++
+  [7, 0, 0, 0, 0, 0, 0, 0] ++ [8, 0, 0, 0] ++ [9, 0, 0, 0] ++ [10, 0, 0, 0] ++ [11, 0, 0, 0] ++ [12, 1, 0, 0] ++
+  [3, 0, 0, 0, 0, 0, 0, 0] ++ [0x62, 0x70, 0x6c] ++ [0xaa]
+
+/-- non-vacuity: the generated `kd_header_v3`, interpreted, on concrete bytes, with a `plistlib.loads` that accepts
+    exactly the payload `bpl`: the twelve integers (the last one 0x10c), the payload, 14 reads, position 71 … -/
+example :
+    (match PyIRCn.project PyIRCn.CVal.toHeaderV3
+        ((Gen.PyIRCn.module.decl "kd_header_v3").parse
+          ⟨fun p => if p = [0x62, 0x70, 0x6c] then some ⟨true, [], none, none, none⟩ else none, fun _ => 0⟩ [])
+        (Reader.ofBytes exDeclHeaderV3) with
+     | (.ok h, r) => some (h, r.pos, r.calls)
+     | (.error _, _) => none) =
+    some (([1, 2, 3, 4, 5, 6, 7, 8, 9, 10, 11, 0x10c], [0x62, 0x70, 0x6c]), 71, 14) := by decide +kernel
+
+/-- … and when `plistlib.loads` rejects the payload: the model's ValueError, the payload consumed -/
+example :
+    (match PyIRCn.project PyIRCn.CVal.toHeaderV3
+        ((Gen.PyIRCn.module.decl "kd_header_v3").parse ⟨EndToEnd.noPlist, fun _ => 0⟩ []) (Reader.ofBytes exDeclHeaderV3) with
+     | (x, r) => (PyIRCn.outcome x, r.pos)) = ((none, some .valueError), 71) := by decide +kernel
+
 end KdVerif.C03
